@@ -49,7 +49,7 @@ spec fn decide_post<'a>(name: Name, e: Option<&'a Evaluated>, i: Option<&'a Inst
 //@contract
     // the closure is only called for names in keys(evaluated) ∪ keys(installed)  (`unreachable!()` otherwise)
     requires e is Some || i is Some,
-    ensures decide_post(*name, e, i, res),                                               // OBL:C03.compare.decide
+    ensures decide_post(*name, e, i, res),                                               // OBL:C03+C01+C02.compare.decide
 //@end
 
 // ---------- eval.rs: a failed evaluation is recorded as 'no ranges' ----------
